@@ -213,8 +213,15 @@ def forms_for(bump, k):
     return ('l', alt[k % len(alt)])
 
 
+def is_wholeday_intraday(c):
+    """a whole-day bump between endpoints that are not a whole number of days apart (evidence bookkeeping only)"""
+    b = c['bump']
+    whole = b[0] == 'int' or (b[0] == 'td' and b[1][1:] == [0, 0]) or (b[0] == 'tenor' and len(b[1]) == 1 and b[1][0][1] in 'dw')
+    return whole and c['t0'][1:] != c['t1'][1:]
+
+
 def s2c(ctx, cases):
-    suspects, gave_up = [], False
+    suspects, gave_up, nwi = [], False, 0
     # TLC prints in no particular order: fix one, and one that mixes the families (if a tree is so slow that the replay is cut
     # short, every family has been sampled by then)
     cases = sorted(cases, key=lambda c: hashlib.sha1(json.dumps([c['t0'], c['t1'], c['bump']]).encode()).hexdigest())
@@ -231,10 +238,12 @@ def s2c(ctx, cases):
         acc = c['accept'][0]
         if acc[0] == 'exc' or len(acc[1]) >= 2:
             ctx.note(('s2c', repr((c['t0'], c['t1'], c['bump']))))
-        if k % 4999 == 0:
+        nwi += is_wholeday_intraday(c)
+        if k % 4999 == 0 or (nwi == 1 and is_wholeday_intraday(c)):
             ctx.sample({'s2c_case': {'t0': c['t0'], 't1': c['t1'], 'bump': c['bump'],
                                      'accept': [a if a[0] != 'ok' else ['ok', a[1][:5]] for a in c['accept']]}})
         ctx.traces += 1
+    ctx.extra['s2c_wholeday_bump_endpoints_not_whole_days_apart'] = nwi
     # TLC (Trace_Drange) says which clause of the statement each mismatch breaks
     bad = judge(ctx, suspects) or []
     if len({i for i, _ in bad}) != len(suspects):
@@ -420,7 +429,62 @@ def subsecond_cases(rng, n):
     return out
 
 
-def c2s(ctx, ncases, nsub, big):
+def enc_inst(x):
+    return [x.toordinal(), x.hour * 3600 + x.minute * 60 + x.second, x.microsecond]
+
+
+def wholeday_cases(rng, n, big):
+    """whole-day movements (n days, in every spelling the quantifier admits: int n, timedelta(days=n), 'nd', 'kw') between endpoints
+    that have times of day of their own: whole days apart at a time of day other than midnight, NOT whole days apart (another time of
+    day, one second / one microsecond either side, midnight), less than a day apart, less than one bump apart.  Returns
+    (t0, t1, n) - the spellings are chosen by the caller."""
+    out = []
+    for _ in range(n):
+        o = rng.randint(FIRST + 4000, LAST - 4000)
+        t0 = [o, rng.choice((0, rng.randrange(86400), rng.randrange(86400))), rng.choice((0, 0, 0, 1, 999999, rng.randrange(1000000)))]
+        sgn = rng.choice((1, -1))
+        k = rng.choice((1, 1, 2, 3, 7, 14, rng.randint(1, 40)))
+        days = rng.choice((0, 0, 1, k - 1, k, k + 1, 3 * k, rng.randint(0, 60), rng.randint(0, 1500 if big else 500)))
+        base = inst(t0) + datetime.timedelta(days=sgn * days)
+        shape = rng.choice(('same', 'tod', 'tod', 'tod', 'us', 'sec', 'midnight'))
+        if shape == 'same':
+            x = base
+        elif shape == 'tod':
+            x = datetime.datetime.fromordinal(base.toordinal()) + datetime.timedelta(seconds=rng.randrange(86400), microseconds=rng.choice((0, 0, rng.randrange(1000000))))
+        elif shape == 'us':
+            x = base + datetime.timedelta(microseconds=rng.choice((-1, 1)))
+        elif shape == 'sec':
+            x = base + datetime.timedelta(seconds=rng.choice((-1, 1, -3600, 3600, -43200, 43200)))
+        else:
+            x = datetime.datetime.fromordinal(base.toordinal())
+        n_days = sgn * k
+        if rng.random() < 0.2:                                        # point the bump away from t1
+            n_days = -n_days
+        out.append((t0, enc_inst(x), n_days))
+    return out
+
+
+def spellings(t0, t1, n):
+    """the spellings of "n days" that the quantifier admits between t0 and t1 (int only for endpoints whole days apart)"""
+    sp = [(['td', [n, 0, 0]], 'call'), (['tenor', [[n, 'd']]], None)]
+    if t0[1:] == t1[1:]:
+        sp.insert(0, (['int', n], 'call'))
+    if n % 7 == 0:
+        sp.append((['tenor', [[n // 7, 'w']]], None))
+    return sp
+
+
+def c2s_wholeday(ctx, obs, n, big):
+    for t0, t1, nd in wholeday_cases(ctx.rng, n, big):
+        if exhausted():
+            break
+        for bump, form in spellings(t0, t1, nd):
+            obs.append(observe(t0, t1, bump, form or ctx.rng.choice(('l', 'l', 'u', 'p', 'cal'))))
+        if ctx.rng.random() < 0.3:                                    # ... and through Calendar.drange
+            obs.append(observe(t0, t1, ['td', [nd, 0, 0]], 'cal'))
+
+
+def c2s(ctx, ncases, nsub, big, nwhole=0):
     obs = []
     cases = [rand_case(ctx.rng, big) for _ in range(ncases)] + subsecond_cases(ctx.rng, nsub)
     for k, (t0, t1, bump, forms) in enumerate(cases):
@@ -449,6 +513,12 @@ def c2s(ctx, ncases, nsub, big):
                 again.append(['tenor', [[ctx.rng.choice((1, -1, 2, -3)) * (bump[1][0][0] or 1), bump[1][0][1]]]])
             for b2 in again:
                 obs.append(observe(t0, t1, b2, 'call' if b2[0] != 'tenor' else 'l', None, before))
+    n_old = len(obs)
+    c2s_wholeday(ctx, obs, nwhole, big)                               # (after the older families: their random stream is unchanged)
+    if len(obs) > n_old:
+        w = obs[n_old + (len(obs) - n_old) // 2]
+        ctx.sample({'c2s_wholeday_observation': {**w, 'out': w['out'] if w['out'][0] != 'ok' else ['ok', w['out'][1][:5]]}})
+    ctx.extra['c2s_wholeday_calls'] = len(obs) - n_old
     ctx.evals += len(obs)
     judge(ctx, obs)
     for o in obs:
@@ -463,18 +533,21 @@ def c2s(ctx, ncases, nsub, big):
 
 def run(ctx):
     ctx.rule = ('MC: the drange machine (one Step per element) over the day / intraday / month case menus: strictly monotone, starts at t0, '
-                'within bounds, iterates the bump, int = timedelta = nd, 1b = all weekdays between the endpoints, kb = every k-th, wrong '
+                'within bounds, iterates the bump, int = timedelta = nd (every spelling of a whole-day bump, n / timedelta(n) / nd / kw, gives the same outcome '
+                'between ANY endpoints the quantifier admits - times of day of their own, less than a day / less than one bump apart - and the list is '
+                't0 + i*n days in closed form), 1b = all weekdays between the endpoints, kb = every k-th, wrong '
                 'direction rejected, t0 = t1 gives [t0], termination (liveness under weak fairness). S2C: every case of the TLC menu replayed '
                 'through drange (two spellings: lower / upper / signed period strings, Calendar.drange for non-b bumps) == an accepted outcome; '
-                'two-call histories over one window with the first returned list changed in place in between (results are history independent); '
+                'two-call histories over one window (also windows with intraday endpoints) with the first returned list changed in place in between (results are history independent); '
                 'mismatches are classified by Trace_Drange. C2S: random start days of 1911-2289, spans up to several years, all bump kinds, 20% '
-                'pointing away, validated by Trace_Drange. Non-trivial = a list of at least 2 elements or a rejection; distinct by (t0, t1, bump).')
+                'pointing away, plus whole-day movements in every admitted spelling between endpoints with times of day of their own (whole days apart, '
+                'off by a time of day / a second / a microsecond, shorter than a day or than one bump), validated by Trace_Drange. Non-trivial = a list of at least 2 elements or a rejection; distinct by (t0, t1, bump).')
     ctx.mc('MC_Drange', 'MC_Drange_quick.cfg' if ctx.quick else 'MC_Drange_thorough.cfg')
     _timeouts[:] = [0, 0.0, SLOW_BUDGET_S['quick' if ctx.quick else 'thorough']]
     try:
         s2c_histories(ctx, ctx.generate('MC_Drange', 'MC_Drange_genH.cfg'))
         if s2c(ctx, ctx.generate('MC_Drange', 'MC_Drange_gen.cfg' if ctx.quick else 'MC_Drange_gen2.cfg')):
-            c2s(ctx, *((1500, 60, False) if ctx.quick else (20000, 600, True)))
+            c2s(ctx, *((1500, 60, False, 400) if ctx.quick else (20000, 600, True, 6000)))
     except GaveUp:
         pass
     ctx.extra['slow_calls_cpu_s'] = round(_timeouts[1], 1)
@@ -488,7 +561,9 @@ def run(ctx):
         'units with midnight endpoints, t0 on a day <= 28 and only whole-day units beside them in compound tenors; zero bumps excluded; '
         'compound tenors of the random driver have parts of one sign, or a dominating leading month/year part, so that every step moves the same way',
         't0 = t1 on a weekend with a business-day bump: both [t0] and [] are accepted (named deviation SinglePointWeekend)',
-        'small-scope: model checking covers the case menus of MC_Drange.tla (14 start days, spans <= 12 / 40 days, <= 13 / 36 months); '
+        'integer bumps are called only between endpoints a whole number of days apart (the quantifier); timedelta(days=n), nd and kw between any endpoints',
+        'small-scope: model checking covers the case menus of MC_Drange.tla (14 start days, spans <= 12 / 40 days, <= 13 / 36 months; whole-day bumps x '
+        'intraday endpoints: 4 starts x 5 times of day and +-1 us x day offsets <= 5 / 15); '
         'trace verdicts hold for the calls actually recorded',
     ]
 
